@@ -697,6 +697,17 @@ EXTREME_UB = re.compile(r"^ubsan-(signed-integer-overflow|negation-of|.*outside-
 NUM_TOKEN = re.compile(rb"(?<![A-Za-z_])[-+]?(?:\d+\.?\d*|\.\d+)(?:[eE][-+]?\d+)?|(?i:\bnan\b|\binf(?:inity)?\b)")
 
 
+def _extreme_in(t):
+    for m in NUM_TOKEN.finditer(t):
+        try:
+            v = float(m.group(0))
+        except ValueError:
+            continue
+        if v != v or abs(v) >= 1e6:
+            return True
+    return False
+
+
 def has_extreme_number(c):
     """a numeric token with |n| >= 1e6, or a non-finite one, in the judged input (signature of finding ubsan-extreme-integer-input)"""
     for _, p in c["ops"]:
@@ -704,14 +715,9 @@ def has_extreme_number(c):
         name = t.decode("latin-1")
         if name in c["files"]:
             t = c["files"][name]
-        for m in NUM_TOKEN.finditer(t):
-            try:
-                v = float(m.group(0))
-            except ValueError:
-                continue
-            if v != v or abs(v) >= 1e6:
-                return True
-    return False
+        if _extreme_in(t):
+            return True
+    return any(_extreme_in(t) for t in c["files"].values())        # include files, written input/database files
 
 
 def finding_key(key, c):
@@ -801,8 +807,10 @@ BIG_NUMBER = re.compile(rb"(?<![A-Za-z_.])\d{4,}|[eE][+]?\d{1,3}\b")
 def small_input(c):
     """no count/size the input could legitimately ask a long computation for: total text < 4 kB and no number >= 1000 or with an exponent"""
     tot = 0
-    for _, p_ in c["ops"]:
+    for k_, p_ in c["ops"]:
         t = p_ if isinstance(p_, bytes) else p_.encode()
+        if k_ in ("runfile", "loaddb") and t.decode("latin-1") not in c["files"]:
+            return False                              # e.g. a device file is an endless input, not a hang
         t = c["files"].get(t.decode("latin-1"), t)
         tot += len(t)
         if BIG_NUMBER.search(t):
